@@ -75,15 +75,54 @@ fn k_get_modifiers() {
 
 // ---------------------------------------------------------------- C16: English masked by ANSI
 
+/// One setter call chosen by the solver: which of the 11 boolean options, and the value.
+fn any_setter_call(c: &mut Config, e: &mut bool, a: &mut bool) {
+    let which: u8 = kani::any();
+    let v: bool = kani::any();
+    kani::assume(which < 11);
+    match which {
+        0 => {
+            c.set_suggestion_include_english(v);
+            *e = v;
+        }
+        1 => {
+            c.set_ansi_encoding(v);
+            *a = v;
+        }
+        2 => c.set_phonetic_suggestion(v),
+        3 => c.set_fixed_suggestion(v),
+        4 => c.set_fixed_automatic_vowel(v),
+        5 => c.set_fixed_automatic_chandra(v),
+        6 => c.set_fixed_traditional_kar(v),
+        7 => c.set_fixed_old_reph(v),
+        8 => c.set_fixed_numpad(v),
+        9 => c.set_fixed_old_kar_order(v),
+        _ => c.set_smart_quote(v),
+    }
+}
+
+/// C16: whatever order the front end calls the option setters in (4 calls chosen by the solver after the two options have been set
+/// once), the English candidate is reported enabled exactly when it was last switched on and ANSI was last switched off.
 #[kani::proof]
 #[kani::stub(crate::config::get_user_data_dir, stub_user_data_dir)]
 fn k_english_mask() {
     let mut c = Config::default();
-    let e: bool = kani::any();
-    let a: bool = kani::any();
-    c.set_suggestion_include_english(e);
-    c.set_ansi_encoding(a);
+    let mut e: bool = kani::any();
+    let mut a: bool = kani::any();
+    let first_english: bool = kani::any();
+    if first_english {
+        c.set_suggestion_include_english(e);
+        c.set_ansi_encoding(a);
+    } else {
+        c.set_ansi_encoding(a);
+        c.set_suggestion_include_english(e);
+    }
+    any_setter_call(&mut c, &mut e, &mut a);
+    any_setter_call(&mut c, &mut e, &mut a);
+    any_setter_call(&mut c, &mut e, &mut a);
+    any_setter_call(&mut c, &mut e, &mut a);
     kani::cover!(e && a, "both on reachable");
+    kani::cover!(e && !a && !first_english, "English on, ANSI off, ANSI set first");
     assert!(c.get_suggestion_include_english() == (e && !a));
     assert!(c.get_ansi_encoding() == a);
     std::mem::forget(c);
